@@ -5,5 +5,7 @@ CONSTANTS
   Mode = "faults"
   KindsUnderTest = {"SR", "RR", "SDES", "BYE", "APP", "NACK", "RRR", "TWCC", "CCFB", "PLI", "SLI", "FIR", "REMB", "XR", "RAW"}
   FaultDepth = 1
+  MaxFrames = 2
+  AllPTs = FALSE
 INVARIANTS TypeOK UniqueKind Stable DecodedWF FaultStable
 CHECK_DEADLOCK FALSE
